@@ -167,7 +167,7 @@ def register(M):
             while isinstance(target, Ref):
                 fv = target
                 target = ex.materialize(ex.read_path(fv.cell, fv.path))
-        if isinstance(target, Adt) and target.ty.startswith('{closure@'):
+        if isinstance(target, Adt) and (target.ty.startswith('{closure@') or target.ty.startswith('{async closure@')):
             return ex.call_value(fv if isinstance(fv, Ref) else target, args)
         if isinstance(target, FnItem):
             return ex.call_named(target.text, args, dty)
